@@ -1,8 +1,22 @@
+import os
+import subprocess
+
+
+def regenerate_modular_cmp(ctx):
+    """Second tie for the primitives: regenerate coq/Gen/ModularCmpGen.v from modular_cmp.rs (translator)."""
+    tool = os.path.join(os.path.dirname(os.path.abspath(__file__)), "..", "tools", "translate_modular_cmp.py")
+    p = subprocess.run(["python3", tool], capture_output=True, text=True)
+    if p.returncode != 0:
+        return ["translator tools/translate_modular_cmp.py no longer translates modular_cmp.rs: " + (p.stdout + p.stderr).strip()[:300]]
+    return []
+
+
 SPEC = {
+    "pre": [regenerate_modular_cmp],
     "id": "C12",
     "level": "proof",
     "coq": {
-        "props": ["Props/C12.v", "Props/C12eq.v"],
+        "props": ["Props/C12.v", "Props/C12gen.v", "Props/C12eq.v"],
         "extract": ["Extract/ExtU32.v", "Extract/ExtTcb.v"],
         "theorems": "auto",
         "allow_axioms": [],
@@ -21,7 +35,10 @@ SPEC = {
             "line; non-trivial = every case (no error path exists)",
     "trusted_base": [
         "Coq 8.16.1 kernel (coqc; vm_compute not used here)",
-        "hand transcription modular_cmp.rs -> Model/U32.v, checked by lock-step on sampled inputs",
+        "hand transcription modular_cmp.rs -> Model/U32.v, checked by lock-step on sampled inputs AND by the translator "
+        "tools/translate_modular_cmp.py (Rust subset -> Gallina, regenerated on every run; Proofs/U32Gen.v proves the "
+        "generated definitions equal to the hand model) - the translator is trusted to map wrapping_add/sub, comparisons, "
+        "&&, ||, literal shifts and let-bindings faithfully",
         "extraction (ExtrOcamlBasic only) + OCaml driver ocaml/u32_drv.ml + Rust harness c12_cmp",
     ],
     "assumptions": ["u32 values are modelled as Z reduced mod 2^32"],
